@@ -10,3 +10,32 @@ NASTY = [0x00, 0x09, 0x0a, 0x0c, 0x0d, 0x20, 0x21, 0x22, 0x23, 0x25, 0x2a, 0x2c,
 
 def rng_for(seed: int, tag: str) -> random.Random:
     return random.Random(f"{seed}:{tag}")
+
+
+def cl_numeral_grid():
+    """Content-Length values around the edges of `1*DIGIT`: (i) valid numerals of every width 1..48 (leading zeros are legal and the
+    grammar sets no length limit) for values from 0 to u64::MAX; (ii) numerals of boundary lengths (1..25: below, at and above the
+    8-byte block sizes of a word-at-a-time digit scan and the 19/20-digit range of u64) in which ONE position holds a byte next to
+    the digit range ('/' ':' ';' '<' '=' '>' '?' '@'), a hex letter, a sign, a separator, OWS or obs-text; (iii) the 2^64 edge with
+    and without zero padding.  Returns a list of byte strings; validity is decided by each oracle itself."""
+    out = []
+    for v in (0, 5, 13, 4294967296, 2 ** 63, 2 ** 64 - 1):
+        s = str(v).encode()
+        for w in range(len(s), 49):
+            out.append(s.rjust(w, b"0"))
+    near = b"/:;<=>?@aAfF\xb5+-., \t"
+    for L in (1, 2, 3, 7, 8, 9, 10, 15, 16, 17, 19, 20, 23, 24, 25):
+        base = (b"0" * L + b"42")[-L:]
+        for pos in range(L):
+            for c in near:
+                out.append(base[:pos] + bytes([c]) + base[pos + 1:])
+    for s in (b"18446744073709551615", b"18446744073709551616", b"18446744073709551620", b"28446744073709551615", b"99999999999999999999",
+              b"100000000000000000000", b"18446744073709551615000"):
+        for w in (len(s), len(s) + 1, 24, 32, 40):
+            if w >= len(s):
+                out.append(s.rjust(w, b"0"))
+    seen, uniq = set(), []
+    for x in out:
+        if x not in seen:
+            seen.add(x); uniq.append(x)
+    return uniq
